@@ -148,21 +148,6 @@ Proof.
   now rewrite <- app_assoc.
 Qed.
 
-(* no name of the tree contains a newline (the rule language is line based) *)
-Fixpoint nlfree (t : stree) : Prop :=
-  match t with
-  | SDir _ _ ks =>
-      (fix go (l : list (str * stree)) : Prop :=
-         match l with [] => True | kc :: r => nonl (fst kc) /\ nlfree (snd kc) /\ go r end) ks
-  | _ => True
-  end.
-
-Fixpoint nlfree_kids (l : list (str * stree)) : Prop :=
-  match l with [] => True | kc :: r => nonl (fst kc) /\ nlfree (snd kc) /\ nlfree_kids r end.
-
-Lemma nlfree_dir pm mt ks : nlfree (SDir pm mt ks) <-> nlfree_kids ks.
-Proof. cbn [nlfree]. induction ks as [|kc r IH]; [reflexivity|]. cbn [nlfree_kids]. now rewrite IH. Qed.
-
 Lemma sheight_kids_lt pm mt ks n : sheight (SDir pm mt ks) < S n -> forall kc, In kc ks -> sheight (snd kc) < n.
 Proof. intros H kc Hin. exact (sheight_kid_lt pm mt ks kc n H Hin). Qed.
 
@@ -171,71 +156,66 @@ Variable rules : option (list rule).
 Hypothesis Hsound : forall rs, rules = Some rs -> flags_sound rs /\ (forall r, In r rs -> rule_ok r).
 
 Lemma fentries_all_excluded : forall n t rel k,
-  sheight t < n -> rel <> [] -> nonl k -> nlfree t ->
-  (forall q, nonl q -> fst (excl rules (join_rel rel ++ slash :: q)) = true) ->
+  sheight t < n -> rel <> [] ->
+  (forall q, fst (excl rules (join_rel rel ++ slash :: q)) = true) ->
   fentries false rules (rel ++ [k]) t = [].
 Proof.
-  induction n as [|n IH]; intros t rel k Hh Hne Hk Hnl Hall; [lia|].
+  induction n as [|n IH]; intros t rel k Hh Hne Hall; [lia|].
   assert (Hex : fst (excl rules (join_rel (rel ++ [k]))) = true) by (rewrite join_rel_snoc by exact Hne; now apply Hall).
   destruct t as [d pm mt|l|sk|pm mt ks]; cbn [fentries]; try (now rewrite Hex).
   change (fentries false rules (rel ++ [k]) (SDir pm mt ks) = []).
   rewrite fentries_dir. cbv zeta. rewrite Hex.
-  apply nlfree_dir in Hnl.
   pose proof (sheight_kids_lt pm mt ks n Hh) as Hhk.
   clear Hh Hex. induction ks as [|kc r IHr]; [reflexivity|].
-  cbn [kids_fentries]. destruct Hnl as (Hn1 & Hn2 & Hn3).
-  rewrite (IH (snd kc) (rel ++ [k]) (fst kc)); [| apply Hhk; now left | destruct rel; discriminate | exact Hn1 | exact Hn2 |].
-  - cbn [app]. apply IHr; [exact Hn3|]. intros kc' Hin. apply Hhk. now right.
-  - intros q Hq. rewrite join_rel_snoc by exact Hne. rewrite <- app_assoc. cbn [app].
-    apply Hall. intros Hin. apply in_app_or in Hin as [Hin|[E|Hin]]; [now apply Hk| |now apply Hq].
-    revert E. unfold slash, nl. discriminate.
+  cbn [kids_fentries].
+  rewrite (IH (snd kc) (rel ++ [k]) (fst kc)); [| apply Hhk; now left | destruct rel; discriminate |].
+  - cbn [app]. apply IHr. intros kc' Hin. apply Hhk. now right.
+  - intros q. rewrite join_rel_snoc by exact Hne. rewrite <- app_assoc. cbn [app]. apply Hall.
 Qed.
 
 Lemma excl_dominating p :
   excl rules (p ++ [slash]) = (true, true) ->
-  forall q, nonl q -> fst (excl rules (p ++ slash :: q)) = true.
+  forall q, fst (excl rules (p ++ slash :: q)) = true.
 Proof.
-  unfold excl. destruct rules as [rs|]; [|discriminate]. intros H q Hq.
+  unfold excl. destruct rules as [rs|]; [|discriminate]. intros H q.
   destruct (Hsound rs eq_refl) as [Hfs Hok].
   change (p ++ slash :: q) with (p ++ [slash] ++ q). rewrite app_assoc.
-  now apply (dominating_sound rs (p ++ [slash]) Hfs Hok H).
+  now apply (dominating_sound_all rs (p ++ [slash]) Hfs Hok H).
 Qed.
 
 Theorem fentries_prune : forall n t rel,
-  sheight t < n -> rel <> [] -> nlfree t ->
+  sheight t < n -> rel <> [] ->
   fentries true rules rel t = fentries false rules rel t.
 Proof.
-  induction n as [|n IH]; intros t rel Hh Hne Hnl; [lia|].
+  induction n as [|n IH]; intros t rel Hh Hne; [lia|].
   destruct t as [d pm mt|l|sk|pm mt ks]; try reflexivity.
   rewrite !fentries_dir. cbv zeta.
-  pose proof (proj1 (nlfree_dir pm mt ks) Hnl) as Hnlk.
   pose proof (sheight_kids_lt pm mt ks n Hh) as Hhk.
   assert (Hkids : kids_fentries true rules rel ks = kids_fentries false rules rel ks).
-  { clear Hh Hnl. induction ks as [|kc r IHr]; [reflexivity|].
-    cbn [kids_fentries]. destruct Hnlk as (Hn1 & Hn2 & Hn3).
-    rewrite (IH (snd kc) (rel ++ [fst kc])); [| apply Hhk; now left | destruct rel; discriminate | exact Hn2].
-    f_equal. apply IHr; [exact Hn3|]. intros kc' Hin. apply Hhk. now right. }
+  { clear Hh. induction ks as [|kc r IHr]; [reflexivity|].
+    cbn [kids_fentries].
+    rewrite (IH (snd kc) (rel ++ [fst kc])); [| apply Hhk; now left | destruct rel; discriminate].
+    f_equal. apply IHr. intros kc' Hin. apply Hhk. now right. }
   destruct (fst (excl rules (join_rel rel))); [exact Hkids|].
   destruct (excl rules (join_rel rel ++ [slash])) as [e2 d2] eqn:E.
   destruct e2; [|now rewrite Hkids].
   destruct d2; cbn [andb]; [|exact Hkids].
   pose proof (excl_dominating _ E) as Hall.
-  symmetry. clear Hkids Hh Hnl. induction ks as [|kc r IHr]; [reflexivity|].
-  cbn [kids_fentries]. destruct Hnlk as (Hn1 & Hn2 & Hn3).
-  rewrite (fentries_all_excluded n (snd kc) rel (fst kc)); [| apply Hhk; now left | exact Hne | exact Hn1 | exact Hn2 | exact Hall].
-  cbn [app]. apply IHr; [exact Hn3|]. intros kc' Hin. apply Hhk. now right.
+  symmetry. clear Hkids Hh. induction ks as [|kc r IHr]; [reflexivity|].
+  cbn [kids_fentries].
+  rewrite (fentries_all_excluded n (snd kc) rel (fst kc)); [| apply Hhk; now left | exact Hne | exact Hall].
+  cbn [app]. apply IHr. intros kc' Hin. apply Hhk. now right.
 Qed.
 
-Lemma kids_fentries_prune pm mt ks rel :
-  nlfree (SDir pm mt ks) -> kids_fentries true rules rel ks = kids_fentries false rules rel ks.
+Lemma kids_fentries_prune (pm : N) (mt : option Z) ks rel :
+  kids_fentries true rules rel ks = kids_fentries false rules rel ks.
 Proof.
-  intros Hnl. apply nlfree_dir in Hnl.
   pose proof (sheight_kids_lt pm mt ks _ (Nat.lt_succ_diag_r _)) as Hhk.
   set (n := sheight (SDir pm mt ks)) in Hhk. clearbody n.
   induction ks as [|kc r IHr]; [reflexivity|].
-  cbn [kids_fentries]. destruct Hnl as (Hn1 & Hn2 & Hn3).
-  rewrite (fentries_prune n (snd kc) (rel ++ [fst kc])); [| apply Hhk; now left | destruct rel; discriminate | exact Hn2].
-  f_equal. apply IHr; [exact Hn3|]. intros kc' Hin. apply Hhk. now right.
+  cbn [kids_fentries].
+  rewrite (fentries_prune n (snd kc) (rel ++ [fst kc])); [| apply Hhk; now left | destruct rel; discriminate].
+  f_equal. apply IHr. intros kc' Hin. apply Hhk. now right.
 Qed.
 End Prune.
 
@@ -336,14 +316,14 @@ Theorem pack_ignore_tree fs opts flags cwd fuel pre x pmR mtR ks rules flags' :
   is_dir fs = true -> rdir fs pre -> forallb seg_ok (pre ++ [x]) = true ->
   get fs (pre ++ [x]) = Some (to_node (SDir pmR mtR ks)) ->
   sheight (SDir pmR mtR ks) < fuel -> wfs (SDir pmR mtR ks) ->
-  wf (SDir pmR mtR ks) -> links_ok [] (SDir pmR mtR ks) -> nlfree (SDir pmR mtR ks) ->
+  wf (SDir pmR mtR ks) -> links_ok [] (SDir pmR mtR ks) ->
   load_rules fs opts flags cwd (join_abs (pre ++ [x])) = (rules, flags') ->
   (forall rs, rules = Some rs -> flags_sound rs /\ (forall r, In r rs -> rule_ok r)) ->
   exists files size,
     pack fuel fs opts flags cwd (join_abs (pre ++ [x]))
     = (PackOk (map of_entry (filter (keep rules) (kids_entries [] ks))) files size, flags').
 Proof.
-  intros Hd Hr Hs Hg Hh Hw Hwf Hlk Hnl Hload Hsound. set (R := pre ++ [x]) in *.
+  intros Hd Hr Hs Hg Hh Hw Hwf Hlk Hload Hsound. set (R := pre ++ [x]) in *.
   destruct (clean_join_abs R Hs) as [Hcl Hco].
   assert (Hpl : forallb plainb pre = true /\ plain x = true).
   { pose proof (seg_ok_plainb _ Hs) as Hp. unfold R in Hp. rewrite forallb_app in Hp. apply andb_true_iff in Hp as [H1 H2].
@@ -364,7 +344,7 @@ Proof.
   { unfold R. apply (lstat_nonlink fs pre x Hr (proj1 Hpl) (proj2 Hpl)); [now rewrite <- to_node_dir|reflexivity]. }
   rewrite Hls. rewrite <- to_node_dir.
   rewrite (pack_root_kids_filtered fs opts rules R Hs fuel pmR mtR ks _ _ Hh Hw Hwf Hlk).
-  rewrite (kids_fentries_prune rules Hsound pmR mtR ks [] Hnl), kids_fentries_filter.
+  rewrite (kids_fentries_prune rules Hsound pmR mtR ks []), kids_fentries_filter.
   destruct (fold_left emit (map of_entry (filter (keep rules) (kids_entries [] ks))) ([], [], 0%N)) as [[es files] size] eqn:E.
   exists (rev files), size. f_equal. f_equal.
   pose proof (fold_emit_es (map of_entry (filter (keep rules) (kids_entries [] ks))) [] [] 0%N) as Hes. rewrite E in Hes. cbn [fst] in Hes.
@@ -452,7 +432,7 @@ Theorem pack_history_independent fs opts f1 f2 cwd fuel pre x pmR mtR ks r1 r2 f
   is_dir fs = true -> rdir fs pre -> forallb seg_ok (pre ++ [x]) = true ->
   get fs (pre ++ [x]) = Some (to_node (SDir pmR mtR ks)) ->
   sheight (SDir pmR mtR ks) < fuel -> wfs (SDir pmR mtR ks) ->
-  wf (SDir pmR mtR ks) -> links_ok [] (SDir pmR mtR ks) -> nlfree (SDir pmR mtR ks) ->
+  wf (SDir pmR mtR ks) -> links_ok [] (SDir pmR mtR ks) ->
   load_rules fs opts f1 cwd (join_abs (pre ++ [x])) = (r1, fl1) ->
   load_rules fs opts f2 cwd (join_abs (pre ++ [x])) = (r2, fl2) ->
   (forall rs r, r1 = Some rs \/ r2 = Some rs -> In r rs -> rule_ok r) ->
@@ -460,13 +440,13 @@ Theorem pack_history_independent fs opts f1 f2 cwd fuel pre x pmR mtR ks r1 r2 f
     pack fuel fs opts f1 cwd (join_abs (pre ++ [x])) = (PackOk es files size, fl1) /\
     pack fuel fs opts f2 cwd (join_abs (pre ++ [x])) = (PackOk es files size, fl2).
 Proof.
-  intros H1 H2 Hd Hr Hs Hg Hh Hw Hwf Hlk Hnl L1 L2 Hok.
+  intros H1 H2 Hd Hr Hs Hg Hh Hw Hwf Hlk L1 L2 Hok.
   assert (S1 : forall rs, r1 = Some rs -> flags_sound rs /\ (forall r, In r rs -> rule_ok r)).
   { intros rs ->. split; [exact (load_rules_sound _ _ _ _ _ _ _ H1 L1)|intros r; apply (Hok rs); now left]. }
   assert (S2 : forall rs, r2 = Some rs -> flags_sound rs /\ (forall r, In r rs -> rule_ok r)).
   { intros rs ->. split; [exact (load_rules_sound _ _ _ _ _ _ _ H2 L2)|intros r; apply (Hok rs); now right]. }
-  destruct (pack_ignore_tree fs opts f1 cwd fuel pre x pmR mtR ks r1 fl1 Hd Hr Hs Hg Hh Hw Hwf Hlk Hnl L1 S1) as (files1 & size1 & P1).
-  destruct (pack_ignore_tree fs opts f2 cwd fuel pre x pmR mtR ks r2 fl2 Hd Hr Hs Hg Hh Hw Hwf Hlk Hnl L2 S2) as (files2 & size2 & P2).
+  destruct (pack_ignore_tree fs opts f1 cwd fuel pre x pmR mtR ks r1 fl1 Hd Hr Hs Hg Hh Hw Hwf Hlk L1 S1) as (files1 & size1 & P1).
+  destruct (pack_ignore_tree fs opts f2 cwd fuel pre x pmR mtR ks r2 fl2 Hd Hr Hs Hg Hh Hw Hwf Hlk L2 S2) as (files2 & size2 & P2).
   assert (Hk : filter (keep r1) (kids_entries [] ks) = filter (keep r2) (kids_entries [] ks)).
   { pose proof (load_rules_sbf fs opts f1 f2 cwd _ r1 r2 fl1 fl2 H1 H2 L1 L2) as Hsb.
     destruct r1 as [a|], r2 as [b|]; try contradiction; [|reflexivity].
